@@ -22,12 +22,14 @@ pub struct Net {
     /// `MAX_CONSECUTIVE_DROPS` in a row), so that PTO back-off is bounded and "no progress for
     /// 30 s" can only mean a deadlock between the implementations, not bad luck
     pub consecutive: [u32; 2],
+    /// quiche's advertised max_udp_payload_size
+    pub peer_limit: usize,
 }
 
 pub const MAX_CONSECUTIVE_DROPS: u32 = 3;
 
 impl Net {
-    pub fn new(sh: Shared, cfg: NetCfg) -> Self {
+    pub fn new(sh: Shared, cfg: NetCfg, peer_limit: usize) -> Self {
         let rng = Rng::new(cfg.seed);
         Net {
             sh,
@@ -35,6 +37,7 @@ impl Net {
             rng,
             idx: 0,
             consecutive: [0; 2],
+            peer_limit,
         }
     }
 }
@@ -116,6 +119,9 @@ impl Net {
         let mut deliveries: Vec<u64> = Vec::new();
         if len > self.cfg.path_payload {
             fate = "drop:mtu".into();
+        } else if dir == 1 && len > self.peer_limit {
+            // quiche told s2n-quic (max_udp_payload_size) that it does not take anything larger
+            fate = "drop:peer_limit".into();
         } else if u_loss < self.cfg.loss[dir] && self.consecutive[dir] < MAX_CONSECUTIVE_DROPS {
             self.consecutive[dir] += 1;
             fate = "drop:loss".into();
@@ -139,6 +145,9 @@ impl Net {
                 c.dropped[dir] += 1;
                 if fate == "drop:mtu" {
                     c.dropped_mtu[dir] += 1;
+                }
+                if fate == "drop:peer_limit" {
+                    c.dropped_peer_limit += 1;
                 }
             }
             if deliveries.len() > 1 {
